@@ -1252,6 +1252,25 @@ def rule_l10(ctx):
     return res
 
 
+def _lifted_deep(ctx, body, op, depth=3):
+    """lifted origins of an operand and of the operands of the arithmetic that produced it (`*to - 1`)"""
+    out = set()
+    work = [(op, depth)]
+    while work:
+        o, d = work.pop()
+        if o["k"] not in ("copy", "move"):
+            continue
+        for (f, r, p) in ctx.lifted_trace(body, o, through={}):
+            out.add((f, r, p))
+            if r[0] == "rv" and d > 0 and f == body.id:
+                rv = body.blocks[r[2]]["stmts"][r[3]]["rv"]
+                for key in ("l", "r", "x", "op"):
+                    oo = rv.get(key)
+                    if isinstance(oo, dict):
+                        work.append((oo, d - 1))
+    return out
+
+
 def rule_l11(ctx):
     """The parser path: a range literal is lowered element by element with the bits of its number type, so the last element
     (exclusive end - 1) has to be compared with that type's max wherever the number type is decided."""
@@ -1269,6 +1288,47 @@ def rule_l11(ctx):
             res.bad(Finding("L11", fid, "range end not compared with the element type's max",
                             "%s the exclusive end of the range is never compared with max() of its number type: `250u8..260` is accepted and lowered as 250..255, 0, 1, 2, 3" % what,
                             ctx.fn(fid)["sp"]))
+    # where the checker re-types a range for signed elements (C05-S18) the bound has to be the *signed* type's max: the unsigned
+    # type of the same width (the type the elements are lowered with) admits 128..=255 for an i8
+    from . import C05, C02
+    if "Signed" in C05.range_retype_kinds(ctx):
+        cb = ctx.body("check::constrain_type")
+        region = set(cb.reachable([0], succ=cb.pruned_succ({C02.INNER: "Range"})))
+        ok = False
+        for b in sorted(region):
+            for st in cb.blocks[b]["stmts"]:
+                if st["k"] == "assign" and st["rv"]["k"] == "binop" and st["rv"]["op"] in ("Lt", "Le", "Gt", "Ge"):
+                    sides = [cb.deep_sources(st["rv"]["l"], 6), cb.deep_sources(st["rv"]["r"], 6)]
+                    end = [any(r == SELF1 and "as Range" in p and p[-1] == "1" for (r, p) in sd) for sd in sides]
+                    smax = [any(r[0] == "call" and str(r[2]).endswith("SignedNumType::max") for (r, p) in sd) for sd in sides]
+                    if (end[0] and smax[1]) or (end[1] and smax[0]):
+                        ok = True
+        # ... or inside the predicate of `max.is_some_and(|max| .. *to - 1 > max)`: the item of the predicate is the payload of the receiver
+        for b in sorted(region):
+            t = cb.term(b)
+            if not (t and t["k"] == "call" and len(t["args"]) == 2 and t["args"][1]["k"] in ("copy", "move") and (t["func"].get("declared") or "").startswith("std::option::Option")):
+                continue
+            recv = cb.deep_sources(t["args"][0], 6)
+            if not any(r[0] == "call" and str(r[2]).endswith("SignedNumType::max") for (r, p) in recv):
+                continue
+            for (r, p) in cb.trace(t["args"][1]["place"], through={}):
+                cid = cb.blocks[r[1]]["stmts"][r[2]]["rv"].get("closure") if r[0] == "agg" else None
+                if not cid or not ctx.has_fn(cid):
+                    continue
+                kb = ctx.body(cid)
+                for blk in kb.blocks:
+                    for st in blk["stmts"]:
+                        if st["k"] == "assign" and st["rv"]["k"] == "binop" and st["rv"]["op"] in ("Lt", "Le", "Gt", "Ge"):
+                            item = [any(rr == ("arg", 2) for (rr, pp) in kb.deep_sources(st["rv"][side], 4)) for side in ("l", "r")]
+                            end = [any(rr == SELF1 and "as Range" in pp and pp[-1] == "1" for side_op in [st["rv"][side]] for (ff, rr, pp) in _lifted_deep(ctx, kb, side_op)) for side in ("l", "r")]
+                            if (item[0] and end[1]) or (item[1] and end[0]):
+                                ok = True
+        if ok:
+            res.ok({"function": "check::constrain_type", "verdict": "for signed element types the range end is compared with SignedNumType::max()"})
+        else:
+            res.bad(Finding("L11", "check::constrain_type", "range end of a signed array is not compared with the signed type's max",
+                            "the checker re-types an untyped range for signed element types, but the end of the range is never compared with SignedNumType::max(): "
+                            "`126..129` is accepted for [i8; 3] and its last element 128 encodes as -128", ctx.fn("check::constrain_type")["sp"]))
     return res
 
 
